@@ -232,4 +232,116 @@ theorem inv_step (s : St) (ev : Ev) (h : Inv s) : Inv (step true s ev) := by
         | true => simp only; exact inv_setInst s k i _ h hk hrest rfl
         | false => simp only; exact hidle (inv_setInst s k i _ h hk hrest rfl)
 
+theorem inv_run (s : St) (evs : List Ev) (h : Inv s) : Inv (run true s evs) := by
+  induction evs generalizing s with
+  | nil => exact h
+  | cons e r ih => exact ih _ (inv_step s e h)
+
+theorem table_removeById (s : St) (id id' : Nat) (h : (removeById s id).table id' ≠ s.table id') : id' = id := by
+  unfold removeById at h
+  cases ht : s.table id with
+  | none => simp [ht] at h
+  | some k =>
+    simp only [ht] at h
+    cases hk : s.insts[k]? with
+    | none =>
+      simp only [hk, unbindId] at h
+      by_cases hid : id' = id
+      · exact hid
+      · simp [hid] at h
+    | some i =>
+      simp only [hk, unbindId, setInst] at h
+      by_cases hid : id' = id
+      · exact hid
+      · simp [hid] at h
+
+/-- **remove_only_self.**  The removal done by a finished run touches the table
+only where it still holds that very instance: a timer registered later under the
+same id is never removed by its predecessor. -/
+theorem remove_only_self (s : St) (k id' : Nat)
+    (h : (step true s (.finish k)).table id' ≠ s.table id') : s.table id' = some k := by
+  simp only [step] at h
+  cases hk : s.insts[k]? with
+  | none => simp [hk] at h
+  | some i =>
+    simp only [hk] at h
+    have key : ∀ s' : St, s'.table = s.table → (removeAfterRun true s' k i).table id' ≠ s.table id' → s.table id' = some k := by
+      intro s' hs hne
+      simp only [removeAfterRun, if_true] at hne
+      split at hne
+      · rename_i hb
+        have hid := table_removeById s' i.id id' (by rw [hs]; exact hne)
+        rw [hid, ← hs]; exact hb
+      · rw [hs] at hne; exact absurd rfl hne
+    cases hp : i.phase with
+    | idle => simp [hp] at h
+    | collected => simp [hp] at h
+    | checked => simp [hp] at h
+    | running => simp [hp] at h
+    | failed => simp only [hp] at h; exact key s rfl h
+    | ended b =>
+      cases b with
+      | true => simp [hp, setInst] at h
+      | false => simp only [hp] at h; exact key (setInst s k { i with phase := .idle }) rfl h
+
+/-- a stopped timer's callback starts at most once more … -/
+theorem late_starts_le_one (evs : List Ev) (k : Nat) (i : Inst)
+    (hk : (run true {} evs).insts[k]? = some i) : i.lateStarts ≤ 1 := by
+  have := ((inv_run {} evs inv_init).inst k i hk).late_le
+  omega
+
+/-- … and not at all when the stop found the run before its cancellation check
+(idle, or collected by `iterate` but not yet past `ctx.Err()`): **no_start_after_stop** (partial:
+the window between the check and the callback is the known finding). -/
+theorem no_start_after_stop_partial (evs : List Ev) (k : Nat) (i : Inst)
+    (hk : (run true {} evs).insts[k]? = some i) (hd : i.deadAtStop = true) : i.lateStarts = 0 :=
+  (((inv_run {} evs inv_init).inst k i hk).dead hd).1
+
+/-- a live (never stopped) timer has no late start by definition; and a stopped one is out of the table -/
+theorem stopped_unbound (evs : List Ev) (k : Nat) (i : Inst)
+    (hk : (run true {} evs).insts[k]? = some i) (hc : i.cancelled = true) :
+    (run true {} evs).table i.id ≠ some k :=
+  ((inv_run {} evs inv_init).inst k i hk).canc_unbound hc
+
+/-- **not_before_interval.**  A callback can start only from phase `checked`, and then
+the time allowed for it (registration + interval(0), or end of the previous
+callback + interval(n)) lies strictly in the past. -/
+theorem not_before_interval (evs : List Ev) (k : Nat) (i : Inst)
+    (hk : (run true {} evs).insts[k]? = some i)
+    (hstart : (step true (run true {} evs) (.cbStart k)).insts[k]? ≠ some i) :
+    i.earliest < (run true {} evs).now := by
+  have hinv := (inv_run {} evs inv_init).inst k i hk
+  simp only [step, hk] at hstart
+  by_cases hp : i.phase = .checked
+  · exact hinv.ready (Or.inr hp)
+  · simp [hp, hk] at hstart
+
+/-! ### witnesses -/
+
+def idReuse : List Ev :=
+  [.new 7 5 5, .tick 6, .collect 0, .check 0, .cbStart 0, .new 7 5 5, .cbEnd 0 false, .finish 0]
+
+/-- the repaired code: the successor registered under the same id survives its predecessor's removal -/
+theorem id_reuse_successor_survives :
+    (run true {} idReuse).table 7 = some 1 ∧ ((run true {} idReuse).insts[1]?.map (·.cancelled)) = some false := by
+  decide
+
+/-- the code before the repair (`removeTimer(tr.id)`): the successor is removed and cancelled -/
+theorem id_reuse_old_code_witness :
+    (run false {} idReuse).table 7 = none ∧ ((run false {} idReuse).insts[1]?.map (·.cancelled)) = some true := by
+  decide
+
+/-- the window that remains: a stop between `ctx.Err()` and the callback (known finding) -/
+theorem stop_window_witness :
+    ((run true {} [.new 7 5 5, .tick 6, .collect 0, .check 0, .stop 7, .cbStart 0]).insts[0]?.map (·.lateStarts)) = some 1 := by
+  decide
+
+/-! ### the tie to the source -/
+
+theorem facts_ok :
+    Gen.C34.finishRemovesSameOnly = true ∧ Gen.C34.runChecksCtxFirst = true ∧
+    Gen.C34.newTimerSetsExpiry = true ∧ Gen.C34.extractErrors = [] := by decide
+
+theorem source_pinned : Gen.C34.pins = Pins.C34 := by decide
+
 end Mitum.C34
